@@ -11,7 +11,7 @@ RULE = ('Hypothesis draws cors_allowed_origins {None, *, string, list, predicate
         'cors_credentials x Host (also no Host header at all) / scheme / X-Forwarded-Proto / X-Forwarded-Host (single values and '
         'comma lists) x Origin {absent, empty, same-origin, forwarded origin, a listed origin, '
         'near-misses of each allowed origin (prefix, suffix, case, port, scheme, trailing slash, '
-        'sub-domain), the request\'s own origin under an explicit origin / list / predicate, mixtures of the direct scheme / host with the forwarded host / scheme, foreign} x request kind {open, poll, post, OPTIONS, upgrade of a session, '
+        'sub-domain), the request\'s own origin under an explicit origin / list / predicate, mixtures of the direct scheme / host with the forwarded host / scheme, foreign} x request kind {open, poll, post, OPTIONS (bare or a full preflight naming the method to come), upgrade of a session, '
         'WebSocket open} x server. Each case runs on a fresh world holding one live session with a '
         'queued tagged message. Oracle: reference allow-set from the statement (exact string '
         'match); not allowed => 400 / WebSocket never accepted, no event, no new session, queue '
@@ -114,6 +114,9 @@ def case_st(draw):
     if draw(st.integers(0, 2)) == 0:
         case['xfh'] = draw(st.sampled_from(['public.example.org', 'public.example.org, inner',
                                             'public.example.org:444']))
+    if case['kind'] == 'options' and draw(st.booleans()):
+        # a real CORS preflight names the method (and headers) of the request to come
+        case['preflight'] = draw(st.sampled_from(['POST', 'GET', 'DELETE']))
     if draw(st.integers(0, 7)) == 0:
         case['host'] = None         # no Host header at all
     ref = ref_allowed(case)
@@ -188,6 +191,9 @@ def headers_of(case, with_origin=True):
         h.append(('X-Forwarded-Host', case['xfh']))
     if with_origin and case['origin'] is not None:
         h.append(('Origin', case['origin']))
+    if case.get('preflight'):
+        h.append(('Access-Control-Request-Method', case['preflight']))
+        h.append(('Access-Control-Request-Headers', 'content-type'))
     return h
 
 
@@ -317,7 +323,7 @@ def check_case(case, ctx=None):
     if ctx:
         nt = bool(case.get('near')) or case['host'] is None or case.get('xfp') is not None or case.get('xfh') is not None \
             or case['cors'] in ('callable', 'list')
-        ctx.case(rep, nt, [impl, 'origin-' + status] + (['no-host-header'] if case['host'] is None else []) + [ 'cors-' + case['cors'], 'kind-' + case['kind'],
+        ctx.case(rep, nt, [impl, 'origin-' + status] + (['preflight-with-request-method'] if case.get('preflight') else []) + (['no-host-header'] if case['host'] is None else []) + [ 'cors-' + case['cors'], 'kind-' + case['kind'],
                            'status-%s' % obs['status']])
 
 
